@@ -1062,6 +1062,190 @@ def _part_generated(ctx, item):
 # independent() on inputs that name the same commit twice (two branches at one commit)
 
 
+# ---------------------------------------------------------------------------
+# walks restricted to paths (the quantifier's `paths` option)
+#
+# dulwich documents `paths` as "file or subtree paths to show entries for": a commit is shown when its changes
+# against its parent(s) touch one of the paths.  The oracle is a sandwich that holds for dulwich's documented
+# reading and for git's --full-history alike:
+#   must    a commit with <= 1 parent whose listing below the paths differs from its parent's (the empty listing
+#           for a root); a merge holding a file below the paths whose content is found in *none* of its parents
+#   must not  a commit with <= 2 parents whose listing below the paths equals that of one of its parents (a root:
+#           is empty); an octopus merge that equals all its parents there
+# (other merges - deletions, per-file agreement with different parents - may go either way), plus the
+# clauses of the plain walk: each commit at most once, only reachable ones, the same relative order as the walk
+# without `paths`, max_entries = a prefix.
+
+_PATHS = (b"d/x", b"d/y", b"d.z", b"dd/x", b"e", b"d/s/t", b"d/s.u", b"D/x")
+_FILTERS = ((b"d",), (b"d/x",), (b"e",), (b"d/s",), (b"dd",), (b"d", b"e"), (b"d/s/t", b"D"), (b"d.z",), (b"d/s.u", b"d/y"))
+
+
+def _under(path, filt):
+    return any(path == f or path.startswith(f + b"/") for f in filt)
+
+
+def _paths_listings(parents, edits):
+    """Per-commit listing {path: value}: the first parent's listing with this commit's edits applied (value 0 = absent,
+    3 = as in the last parent)."""
+    out = []
+    for i, ps in enumerate(parents):
+        cur = dict(out[ps[0]]) if ps else {}
+        for pi, v in edits[i]:
+            path = _PATHS[pi % len(_PATHS)]
+            if v == 3:
+                v = out[ps[-1]].get(path, 0) if ps else 0
+            if v == 0:
+                cur.pop(path, None)
+            else:
+                cur[path] = v
+        out.append(cur)
+    return out
+
+
+def build_paths_graph(parents, times, listings, salt):
+    from dulwich.index import commit_tree
+    from dulwich.objects import Blob, Commit
+    from dulwich.repo import MemoryRepo
+
+    r = MemoryRepo()
+    blobs = {}
+    for v in (1, 2):
+        b = Blob.from_string(b"v%d\n" % v)
+        r.object_store.add_object(b)
+        blobs[v] = b.id
+    commits = []
+    for i, ps in enumerate(parents):
+        tid = commit_tree(r.object_store, [(p, blobs[v], 0o100644) for p, v in sorted(listings[i].items())])
+        c = Commit()
+        c.tree = tid
+        c.parents = [commits[p].id for p in ps]
+        c.author = c.committer = b"V <v@example.com>"
+        c.commit_time = times[i]
+        c.author_time = 2 * T0 - times[i]
+        c.author_timezone = c.commit_timezone = 0
+        c.message = b"p%d %s\n" % (i, salt)
+        r.object_store.add_object(c)
+        commits.append(c)
+    return Graph(parents, times, salt, r, commits, "mem")
+
+
+def _paths_expect(g, listings, filt):
+    must, mustnot = set(), set()
+    for x, ps in enumerate(g.parents):
+        mine = {p: v for p, v in listings[x].items() if _under(p, filt)}
+        theirs = [{p: v for p, v in listings[q].items() if _under(p, filt)} for q in ps] or [{}]
+        same = [mine == t for t in theirs]
+        if len(theirs) == 1:
+            (mustnot if same[0] else must).add(x)
+        elif all(same) or (len(theirs) == 2 and any(same)):
+            # an octopus that equals one parent only may still be shown: dulwich documents "never existed in one
+            # parent and was deleted [with different contents] in two others" as a conflict
+            mustnot.add(x)
+        elif any(all(v != t.get(p, 0) for t in theirs) for p, v in mine.items()):
+            # a file whose content in the merge is found in none of the parents; a deletion is a conflict for
+            # dulwich only when the parents' contents differ (tree_changes_for_merge), so it may go either way
+            must.add(x)
+    return must, mustnot
+
+
+def _run_paths_walk(g, q, with_paths=True):
+    try:
+        w = g.repo.get_walker(
+            include=[g.ids[i] for i in q["include"]], exclude=[g.ids[i] for i in q.get("exclude") or []] or None,
+            order=q.get("order", "date"), max_entries=q.get("max_entries") if with_paths else None,
+            paths=[bytes(f) for f in q["paths"]] if with_paths else None,
+        )
+        return [g.idx[e.commit.id] for e in w]
+    except Exception as e:
+        return ("exception", type(e).__name__, str(e)[:200])
+
+
+def judge_paths_walk(ctx, g, edits, q, check="walk-paths"):
+    listings = _paths_listings(g.parents, edits)
+    filt = tuple(bytes(f) for f in q["paths"])
+    got = _run_paths_walk(g, q)
+    full = _run_paths_walk(g, dict(q, max_entries=None))
+    plain = _run_paths_walk(g, q, with_paths=False)
+    bad = []
+    for name, r in (("paths", got), ("paths,unlimited", full), ("plain", plain)):
+        if isinstance(r, tuple):
+            bad.append((f"C13:walk-paths:exception:{r[1]}", f"{name} walk raised {r[1]}: {r[2]}"))
+    if not bad:
+        inc = M.reach(g.anc, q["include"]) & ~M.reach(g.anc, q.get("exclude") or [])
+        cand = set(M.bits(inc))
+        must, mustnot = _paths_expect(g, listings, filt)
+        fs = set(full)
+        merge = lambda xs: "merge" if any(len(g.parents[x]) > 1 for x in xs) else "root" if any(not g.parents[x] for x in xs) else "plain"
+        if len(fs) != len(full):
+            bad.append(("C13:walk-paths:duplicate", f"commits yielded more than once: {full}"))
+        if fs - set(plain):
+            bad.append(("C13:walk-paths:not-in-plain-walk", f"yielded {sorted(fs - set(plain))} which the walk without paths does not yield"))
+        if (must & cand) - fs:
+            m = sorted((must & cand) - fs)
+            bad.append((f"C13:walk-paths:missing-commit:{merge(m)}", f"paths={list(filt)}: did not yield {m} which change(s) a file below the paths"))
+        if fs & mustnot:
+            m = sorted(fs & mustnot)
+            bad.append((f"C13:walk-paths:extra-commit:{merge(m)}", f"paths={list(filt)}: yielded {m} whose files below the paths equal those of a parent"))
+        if not bad and full != [x for x in plain if x in fs]:
+            bad.append(("C13:walk-paths:order-differs-from-plain-walk", f"with paths {full}, without {plain}"))
+        if not bad and q.get("max_entries") is not None and got != full[: q["max_entries"]]:
+            bad.append(("C13:walk-paths:max-entries-not-a-prefix", f"max_entries={q['max_entries']}: {got}, unlimited {full}"))
+    for bucket, msg in bad:
+        case = dict(parents=[list(ps) for ps in g.parents], times=list(g.times), salt=g.salt, edits=[[list(e) for e in es] for es in edits],
+                    q=dict(q, paths=[f.decode() for f in filt]))
+        ctx.fail(bucket, f"{msg}; walk={q} parents={[list(p) for p in g.parents]} listings={listings}", check, case)
+    return got, full
+
+
+def _paths_strategy(max_n):
+    from hypothesis import strategies as st
+
+    node = st.tuples(st.integers(0, 9), st.lists(st.integers(0, 11), min_size=5, max_size=5), st.integers(0, 4095))
+    edit = st.tuples(st.integers(0, len(_PATHS) - 1), st.sampled_from([0, 1, 1, 2, 2, 3]))
+    pick = st.integers(0, 1 << 20)
+    n = st.integers(2, max_n)
+    return n.flatmap(lambda k: st.tuples(
+        st.sampled_from(_KINDS), st.sampled_from(("strict", "strict", "monotone-ties")), st.lists(node, min_size=k, max_size=k),
+        st.lists(st.lists(edit, min_size=0, max_size=2), min_size=k, max_size=k),
+        st.lists(st.tuples(st.sampled_from(_FILTERS), st.lists(pick, min_size=1, max_size=2), st.lists(pick, min_size=0, max_size=1),
+                           st.sampled_from(["date", "topo"]), st.one_of(st.none(), st.integers(1, 4))), min_size=1, max_size=4)))
+
+
+def execute_paths(ctx, value):
+    kind, clock, nodes, edits, qs = value
+    parents, times = interpret_dag(kind, clock, nodes)
+    n = len(parents)
+    listings = _paths_listings(parents, edits)
+    g = build_paths_graph(parents, times, listings, b"p%d" % (ctx.seed % 7))
+    for filt, inc, exc, order, maxe in qs:
+        q = dict(paths=[f for f in filt], include=list(dict.fromkeys(_tipward(n, x) for x in inc)), order=order, max_entries=maxe)
+        if exc:
+            q["exclude"] = [x % n for x in exc]
+        got, full = judge_paths_walk(ctx, g, edits, q)
+        must, mustnot = _paths_expect(g, listings, tuple(filt))
+        labels = ["op:walk(paths)", "paths:%d" % len(filt)]
+        if not isinstance(full, tuple):
+            if any(len(parents[x]) > 1 for x in full):
+                labels.append("paths:merge-yielded")
+            if any(len(parents[x]) > 1 for x in mustnot):
+                labels.append("paths:merge-must-not")
+            if len(must) + len(mustnot) < n:
+                labels.append("paths:either-way-merge-present")
+        near = any(not _under(p, filt) and any(p.startswith(f) for f in filt) for l in listings for p in l)
+        if near:
+            labels.append("paths:byte-prefix-neighbour-present")
+        ctx.case(("P", parents, times, repr(edits), repr(sorted(q.items()))),
+                 nontrivial=bool(must) and bool(mustnot) and not isinstance(full, tuple), labels=labels,
+                 sample=dict(parents=parents, listings=[{k.decode(): v for k, v in l.items()} for l in listings],
+                             q={k: ([f.decode() for f in v] if k == "paths" else v) for k, v in q.items()}) if n <= 5 else None)
+
+
+def _part_paths(ctx, item):
+    n_examples, max_n = item
+    run_hypothesis(ctx, _paths_strategy(max_n), execute_paths, max_examples=n_examples, shrink=True)
+
+
+
 def judge_independent_dups(ctx, g, args, check="independent-dups"):
     got = _run_graph_op(g, "ind", args)
     want = M.independent(g.anc, args)
@@ -1209,6 +1393,7 @@ def run(ctx):
     timed("dups", _part_dups, [0])
     timed("chains", _part_chains, [(L, k) for L in ctx.scale((7, 9, 12), (7, 8, 9, 12, 16, 24)) for k in range(ctx.scale(4, 8))])
     timed("generated_memory", _part_generated, [(ctx.scale(150, 3000), ctx.scale(40, 300), False)] * 16)
+    timed("walk_paths", _part_paths, [(ctx.scale(120, 2500), ctx.scale(9, 14))] * 16)
     timed("generated_disk_git", _part_generated, [(ctx.scale(40, 1200), ctx.scale(24, 60), True)] * 16)
 
 
@@ -1246,6 +1431,12 @@ def replay(ctx, check, case):
             judge_commit_graph(ctx, g2, case["kind"], q, before)
         finally:
             g.repo.close()
+    elif check == "walk-paths":
+        parents = [tuple(ps) for ps in case["parents"]]
+        edits = [[tuple(e) for e in es] for es in case["edits"]]
+        g = build_paths_graph(parents, case["times"], _paths_listings(parents, edits), case["salt"])
+        q = dict(case["q"], paths=[f.encode() for f in case["q"]["paths"]])
+        judge_paths_walk(ctx, g, edits, q)
     elif check == "independent-dups":
         g = build(ctx, case)
         try:
